@@ -802,7 +802,9 @@ func c10ManySignatures(w *core.W, j int) {
 // c10SameTagKeys: two different keys of one zone that share owner, algorithm and key tag (RFC 4034 App. B:
 // the tag does not identify a key; here the flags of the second key are chosen so that the tags collide).
 // Each key verifies its own signatures and not the other's, in whatever order they are used.
-func c10SameTagKeys(w *core.W, j int) {
+func c10SameTagKeys(w *core.W, j int) { sameTagKeys(w, j, "C10") }
+
+func sameTagKeys(w *core.W, j int, prop string) {
 	alg := []uint8{dns.RSASHA256, dns.ED25519, dns.RSASHA1, dns.ECDSAP256SHA256, dns.RSASHA512}[j%5]
 	zone := "same-tag.example."
 	var k1, k2 *sigKey
@@ -843,7 +845,7 @@ func c10SameTagKeys(w *core.W, j int) {
 	}
 	s1, s2 := sign(k1), sign(k2)
 	if s1 == nil || s2 == nil {
-		w.Violation("C10/sign-fails/same-tag-keys/"+algName(alg), "Sign failed for one of two keys with the same tag", nil)
+		w.Violation(prop+"/sign-fails/same-tag-keys/"+algName(alg), "Sign failed for one of two keys with the same tag", nil)
 		return
 	}
 	wit := map[string]any{"alg": algName(alg), "tag": k1.Key.KeyTag(), "key1": k1.Key.String(), "key2": k2.Key.String()}
@@ -864,11 +866,11 @@ func c10SameTagKeys(w *core.W, j int) {
 		}
 		w.Eval(1)
 		if st.want && err != nil {
-			w.Violation("C10/own-signature-rejected/same-tag-keys/"+algName(alg), fmt.Sprintf("two keys of one zone share algorithm and tag %d; step %q: a key's own signature is rejected: %v", k1.Key.KeyTag(), st.what, err), wit)
+			w.Violation(prop+"/own-signature-rejected/same-tag-keys/"+algName(alg), fmt.Sprintf("two keys of one zone share algorithm and tag %d; step %q: a key's own signature is rejected: %v", k1.Key.KeyTag(), st.what, err), wit)
 			return
 		}
 		if !st.want && err == nil {
-			w.Violation("C10/accepts-invalid/same-tag-keys/"+algName(alg), fmt.Sprintf("two keys of one zone share algorithm and tag %d; step %q: the signature of one key verifies under the other", k1.Key.KeyTag(), st.what), wit)
+			w.Violation(prop+"/accepts-invalid/same-tag-keys/"+algName(alg), fmt.Sprintf("two keys of one zone share algorithm and tag %d; step %q: the signature of one key verifies under the other", k1.Key.KeyTag(), st.what), wit)
 			return
 		}
 	}
